@@ -153,6 +153,25 @@ def small_family(tag, pred, per_pair, n_triples, extra_seed=None, extra_pairs=0,
     return jobs
 
 
+def modifier_table(pred=None):
+    """Every one of the eight standard modifiers in every role, in a handful of fixed layout shapes: a slip in a table of modifier
+    names (one name missing, two swapped) shows only for that one modifier."""
+    jobs = []
+    for mi, m in enumerate(MODS):
+        other = MODS[(mi + 3) % 8]
+        shapes = [
+            [M(["A"], [m, "D"]), M(["B"], ["X"])],                                   # a chord's modifier must be lifted before the next mapped key
+            [M(["A"], [m]), M(["B"], ["B"], D), M(["C"], [m, other])],               # modifier-remappings next to a no-repeat key
+            [M([m, "A"], ["X"]), M(["B"], [m, "Y"], S(["E"]))],                       # the modifier as a trigger key and as an output
+            [M([m, "A"], [m, "B"], N, [m]), M([m, "B"], ["Y"]), M(["C"], ["C"], D)],  # the modifier absorbed
+            [M(["C"], [m, "A"], S([m, "E"])), M([other, m, "B"], ["D"])],
+        ]
+        for si, lay in enumerate(shapes):
+            if pred is None or pred(lay):
+                jobs.append({"id": "modtab-%s-%d" % (m, si), "layout": lay, "keys": ["A", "B", "C", m, other, "F"], "maxheld": 3})
+    return jobs
+
+
 def small_n4(tag, pred, n):
     """n three-mapping layouts of the small family explored with FOUR keys held (some defects need a fourth key)"""
     base = small_family(tag, pred, 0, n, None, 0, 0, ones=False)
